@@ -88,7 +88,7 @@ def run_pipe_property(chk, me, streams, n_mut, matchers=None, oracle=None, extra
     return chk.finish(me)
 
 
-def fmt_tokens(fields, rename, render):
+def fmt_tokens(fields, rename, render, keys=None):
     """the formatter section of a mapping file as model tokens (Drivers/D14.v parse_fmt); goes before the 'cfg' tokens"""
     t = ['fmt']
     for f in fields or []:
@@ -98,6 +98,8 @@ def fmt_tokens(fields, rename, render):
             t += ['rename', str(a), str(b)]
     for a, b in (render or {}).items():
         t += ['render', str(a), str(b)]
+    for k in keys or []:
+        t += ['key', str(k)]
     return t
 
 
